@@ -374,8 +374,11 @@ class Explorer:
                 n = by_finding.get(f["id"], 0)
                 print(f"KNOWN-FINDING: property={self.pid} {f['what']} "
                       f"[{f['id']}] (reproduced on {n} explored cases)")
+        printed = set()
         for path, facet, summary in violations:
-            print(f"VIOLATION property={self.pid} replay={path}")
+            if path not in printed:
+                printed.add(path)
+                print(f"VIOLATION property={self.pid} replay={path}")
             print(f"    facet={facet}: {summary}")
         skipped = []
         exhaustive = all(per_space[s]["cases"] == per_space[s]["size"] for s in per_space) \
